@@ -135,7 +135,7 @@ class Case:
     """one argument recipe for one pair on one receiver"""
 
     def __init__(self, recv, args=None, label="", rnd=False, gauge=False, noself=False, tol=1e-8, permtol=1e-7,
-                 noperm=None, collapse=False, noinpl=None):
+                 noperm=None, collapse=False, noinpl=None, orderdep=None):
         self.recv = recv
         self.args = args or (lambda x, h: ((), {}))
         self.label = label
@@ -145,6 +145,8 @@ class Case:
         self.tol = tol
         self.permtol = permtol
         self.noperm = noperm    # reason why re-stored receivers are not in the method's domain
+        self.orderdep = orderdep  # reason why the value itself may follow the insertion order of the tensors (truncation
+                                  # sweeps, unconverged iterations): the re-inserted run is then only checked for purity
         self.noinpl = noinpl    # reason why the in-place spelling is outside its documented domain for these arguments
         self.collapse = collapse  # contraction of everything: `f` returns the tensor / number, `f_` the network
                                   # holding it (documented); compare them as tensor / number
@@ -175,27 +177,42 @@ def observe_call(tid, ident, case, seed, modes, build, plain_fn, inpl_fn, contig
     cin = U.Canon((x, a, kw), known)
     st_in = cin.struct()
 
+    recv_exp = "nonzero" if (U.is_tn(x) and x.exponent != 0) else "zero"
+    clash = bool(U.is_tn(x) and any(U.is_tn(o) and set(x.inner_inds()) & set(o.inner_inds()) for o in argobjs))
     b_recv = U.fp_raw(x)
     b_args = [U.fp_raw(o) for o in argobjs]
     b_sh = [U.fp_raw(o) for _, o in sharers]
     b_arr = [U.array_bytes_hash(z) for z in arrays]
 
+    cargs = U.Canon(argobjs, known) if clash else None
     r1, exc1 = _call(plain_fn(x), a, kw, 777 + seed)
 
     post = U.collapse if case.collapse else (lambda o: o)
     rec = {"ev": "call", "tid": tid, "randomised": bool(case.rnd), "docself": not case.noself, "hasinpl": inpl_fn is not None,
-           "gauge": bool(case.gauge)}
+           "gauge": bool(case.gauge), "orderdep": bool(case.orderdep)}
     rec.update(ident)
+    rec["aliases"] = 0
+    rec["recv_exponent"] = recv_exp
+    rec["inner_clash"] = clash
+    # virtual combination of networks whose summed labels clash renames those of the right operand (documented meaning of
+    # `|`: the tensors are shared): is the operand still the same labelled object (up to its summed labels)?
+    rec["args_same_content"] = True
+    if clash:
+        ca = U.Canon(argobjs, known)
+        rec["args_same_content"] = bool(ca.struct() == cargs.struct() and U.compare(cargs, ca, 1e-12) == 0)
     rec["recv"] = {"before": b_recv, "after": U.fp_raw(x)}
     rec["args"] = _pairs(b_args, [U.fp_raw(o) for o in argobjs])
     rec["sharers"] = [{"kind": k, "before": b, "after": U.fp_raw(o)} for (k, o), b in zip(sharers, b_sh)]
     rec["arrays"] = _pairs(b_arr, [U.array_bytes_hash(z) for z in arrays])
     c1 = None
     if exc1:
-        rec["plain"] = {"exc": exc1, "st": EXC_ST, "stw": EXC_ST, "dq": 0}
+        rec["plain"] = {"exc": exc1, "st": EXC_ST, "stw": EXC_ST, "stv": EXC_ST, "dq": 0}
     else:
         c1 = U.Canon(post(r1), known)
-        rec["plain"] = {"exc": "", "st": c1.struct(), "stw": c1.struct(weak=True), "dq": 0}
+        rec["plain"] = {"exc": "", "st": c1.struct(), "stw": c1.struct(weak=1), "stv": c1.struct(weak=2), "dq": 0}
+        mine = {id(t) for o in [x] + argobjs for t in ([o] if U.is_tensor(o) else (o.tensor_map.values() if U.is_tn(o) else []))}
+        rec["aliases"] = sum(1 for o in U.walk_objects(r1) for t in ([o] if U.is_tensor(o) else (o.tensor_map.values() if U.is_tn(o) else []))
+                             if id(t) in mine)
 
     # in-place spelling on a copy taken before the plain call
     if inpl_fn is not None:
@@ -224,8 +241,10 @@ def observe_call(tid, ident, case, seed, modes, build, plain_fn, inpl_fn, contig
             z, a3, kw3 = build((mode, prng, contiguous))
             cz = U.Canon((z, a3, kw3), known)
             same = cz.struct() == st_in and U.compare(cin, cz, 1e-12) == 0
+            objs3 = [z] + [o for o in U.walk_objects((a3, kw3))]
+            b3 = [U.fp_raw(o) for o in objs3]
             r3, exc3 = _call(plain_fn(z), a3, kw3, 777 + seed)
-            p = {"mode": mode, "exc": exc3, "same_in": bool(same), "level": "tensor"}
+            p = {"mode": mode, "exc": exc3, "same_in": bool(same), "level": "tensor", "pure": b3 == [U.fp_raw(o) for o in objs3]}
             if exc3:
                 p.update({"st": EXC_ST, "dq": 0})
             else:
@@ -235,10 +254,19 @@ def observe_call(tid, ident, case, seed, modes, build, plain_fn, inpl_fn, contig
                     p["dq"] = 0
                 else:
                     d = U.compare(c1, c3, case.permtol) if p["st"] == rec["plain"]["st"] else 999999
-                    if d != 0 and case.gauge:
+                    if d != 0 and mode == "reorder" and case.orderdep:
+                        p["level"] = "skipped"
+                        d = 0
+                    elif d != 0 and mode == "reorder":
+                        # which tensor carries a scalar factor / a gauge, which tensors were merged first may follow
+                        # the insertion order: same class / outer labels / tags overall and same contracted value
+                        p["level"] = "value"
+                        p["st"] = c3.struct(weak=2)
+                        d = U.compare(c1, c3, case.permtol, dense=True)
+                    elif d != 0 and case.gauge:
                         # the result has a gauge freedom: same class / outer labels / tags and same denotation
                         p["level"] = "denotation"
-                        p["st"] = c3.struct(weak=True)
+                        p["st"] = c3.struct(weak=1)
                         d = U.compare(c1, c3, case.permtol, dense=True)
                     p["dq"] = d
             rec["perm"].append(p)
@@ -248,14 +276,14 @@ def observe_call(tid, ident, case, seed, modes, build, plain_fn, inpl_fn, contig
 
 # ----------------------------------------------------------------------------- driving the pairs
 
-def run_pairs(ctx, quick, tid0=0):
+def run_pairs(ctx, quick, tid0=0, rep=0):
     from . import c03_recipes as RC
 
     pairs = discover_pairs()
     recs, table = [], []
     tid = tid0
-    modes_q = ["reverse", "random"]
-    modes_t = ["reverse", "roll", "random", "random"]
+    modes_q = ["reorder", "random"]
+    modes_t = ["reorder", "roll", "random", "reverse"]
     for (cn, name), info in sorted(pairs.items()):
         cases = RC.cases_for(cn, name, quick)
         entry = {"cls": cn, "name": name, "how": info["how"], "cases": 0, "returned": 0, "status": "norecipe", "reason": ""}
@@ -266,7 +294,7 @@ def run_pairs(ctx, quick, tid0=0):
             entry["reason"] = "no argument recipe for this pair"
         for ci, case in enumerate(cases):
             recvf = RC.RECEIVERS[case.recv]
-            seed = ctx.seed * 7919 + ci
+            seed = ctx.seed * 7919 + ci + 1009 * rep
 
             def build(perm, receiver=None, case=case, recvf=recvf, seed=seed):
                 x = receiver if receiver is not None else recvf(seed)
@@ -315,7 +343,7 @@ def run_pairs(ctx, quick, tid0=0):
     return recs, table, tid
 
 
-def run_binops(ctx, quick, tid0):
+def run_binops(ctx, quick, tid0, rep=0):
     from . import c03_recipes as RC
 
     ops = discover_binops()
@@ -331,7 +359,7 @@ def run_binops(ctx, quick, tid0):
             entry["reason"] = "no operand recipe for this operator"
         for ci, case in enumerate(cases):
             recvf = RC.RECEIVERS[case.recv]
-            seed = ctx.seed * 7919 + 101 + ci
+            seed = ctx.seed * 7919 + 101 + ci + 1009 * rep
 
             def build(perm, receiver=None, case=case, recvf=recvf, seed=seed):
                 x = receiver if receiver is not None else recvf(seed)
@@ -389,8 +417,10 @@ def replay_behaviour(beh, tid, seed):
 
     t1 = qtn.Tensor(c(2, 3, 2), inds=("a", "b", "c"), tags=("P",), left_inds=("a",))
     t2 = qtn.Tensor(c(2, 2), inds=("c", "d"), tags=("Q",))
-    tens = [None, t1, t2]
-    nets = [None, qtn.TensorNetwork([t1, t2], virtual=True)]
+    t3 = qtn.Tensor(c(2), inds=("d",), tags=("Q",))
+    tens = [None, t1, t2, t3]
+    nets = [None, qtn.TensorNetwork([t1, t2], virtual=True), qtn.TensorNetwork([t3], virtual=True)]
+    nets[2].exponent = 1.0
     recs = []
 
     def obj(o):
@@ -415,7 +445,7 @@ def replay_behaviour(beh, tid, seed):
                 return getattr(x, "multiply_each" + sfx), (2.0,), "multiply_each"
             if f == "relabel":
                 return getattr(x, "reindex" + sfx), ({arg[0]: arg[1]},), "reindex"
-            if f == "expo":
+            if f == "norm":
                 return getattr(x, "equalize_norms" + sfx), (1.0,), "equalize_norms"
         raise MachineryError("unknown abstract method %s" % f)
 
@@ -460,6 +490,7 @@ def replay_behaviour(beh, tid, seed):
                     call = lambda: fn(x, y)  # noqa
                     others = [(k, v) for k, v in everything() if v is not x and v is not y]
                     argobjs = [y]
+                    clash = bool(U.is_tn(x) and U.is_tn(y) and set(x.inner_inds()) & set(y.inner_inds()))
                 else:
                     o, (f, arg) = act[1], act[2]
                     x = obj(o)
@@ -467,6 +498,7 @@ def replay_behaviour(beh, tid, seed):
                     call = lambda: meth(*a)  # noqa
                     others = [(k, v) for k, v in everything() if v is not x]
                     argobjs = []
+                    clash = False
                 if kind == "inplace":
                     mine = {id(x)} if U.is_tensor(x) else {id(t) for t in x.tensor_map.values()}
                     others = [(k, v) for k, v in others
@@ -479,21 +511,22 @@ def replay_behaviour(beh, tid, seed):
                 ycopy = x.copy() if kind == "plain" else None
                 r1, exc1 = _call(call, (), {}, 5)
                 rec = {"tid": tid, "cls": type(x).__name__, "name": name, "recvcls": type(x).__name__, "case": "replay step %d" % si,
+                       "inner_clash": clash, "args_same_content": True, "recv_exponent": "nonzero" if (U.is_tn(x) and x.exponent != 0) else "zero",
                        "sharers": [{"kind": k, "before": b, "after": U.fp_raw(v)} for (k, v), b in zip(others, b_oth)],
                        "arrays": _pairs(b_arr, [U.array_bytes_hash(z) for z in arrays])}
                 if kind == "inplace":
                     rec["ev"] = "inplace"
                     rec["exc"] = exc1
                 else:
-                    rec.update({"ev": "call", "randomised": False, "docself": True, "hasinpl": kind == "plain", "gauge": False,
+                    rec.update({"ev": "call", "randomised": False, "docself": True, "hasinpl": kind == "plain", "gauge": False, "orderdep": False,
                                 "recv": {"before": b_recv, "after": U.fp_raw(x)},
                                 "args": _pairs(b_args, [U.fp_raw(v) for v in argobjs]), "perm": []})
                     c1 = None
                     if exc1:
-                        rec["plain"] = {"exc": exc1, "st": EXC_ST, "stw": EXC_ST, "dq": 0}
+                        rec["plain"] = {"exc": exc1, "st": EXC_ST, "stw": EXC_ST, "stv": EXC_ST, "dq": 0}
                     else:
                         c1 = U.Canon(r1, known)
-                        rec["plain"] = {"exc": "", "st": c1.struct(), "stw": c1.struct(weak=True), "dq": 0}
+                        rec["plain"] = {"exc": "", "st": c1.struct(), "stw": c1.struct(weak=1), "stv": c1.struct(weak=2), "dq": 0}
                     if kind == "plain":
                         # the in-place spelling on the copy taken before the plain call
                         bound, a2, _ = real_call(ycopy, f, arg, True)
@@ -539,7 +572,7 @@ def replay_behaviour(beh, tid, seed):
 
 # ----------------------------------------------------------------------------- check
 
-MODEL_ACTIONS = ("CopyA", "VCopyA", "AdoptA", "PermuteA", "PlainA", "InplaceA", "BinaryA")
+MODEL_ACTIONS = ("CopyA", "VCopyA", "AdoptA", "PermuteA", "PlainA", "InplaceA", "AddA", "CombineA")
 SELFTESTS = (("MC_dev_write.cfg", "an in-place method writes into the shared buffer (data *= c)", ("PlainPureInv", "ArraysUntouchedInv", "SharersUntouchedInv", "CopyIsolatedInv")),
              ("MC_dev_self.cfg", "a plain tensor spelling starts with x = self", ("PlainPureInv",)),
              ("MC_dev_netself.cfg", "a plain network spelling starts with tn = self", ("PlainPureInv", "SharersUntouchedInv")),
@@ -551,19 +584,27 @@ def run(ctx):
     quick = ctx.tier == "quick"
     warnings.filterwarnings("ignore")
 
+    # the small TLC jobs (five self-tests that must fail, one simulation for the replays) run next to the big one
+    import concurrent.futures as cf
+    nsim = 25 if quick else 120
+    pool = cf.ThreadPoolExecutor(max_workers=3)
+    jobs = [pool.submit(T.run_tlc, "MC_C03", cfg, ctx.spec_dir, workers=2, allow_violation=True, scratch=ctx.scratch, timeout=900)
+            for cfg, _, _ in SELFTESTS]
+    simjob = pool.submit(T.run_tlc, "MC_C03", "MC_sim.cfg", ctx.spec_dir, workers=1, coverage=False, simulate="num=%d" % nsim,
+                         depth=8, seed=11 + ctx.seed, scratch=ctx.scratch, timeout=900)
+
     # 1. TLC: every history of the heap model; every call step satisfies the clauses of C03_Defs
     ctx.model_check("MC_C03", "MC_quick.cfg" if quick else "MC_thorough.cfg", name="alias-heap-histories",
-                    require_actions=MODEL_ACTIONS, timeout=2400)
-    for cfg, what, expect in SELFTESTS:
-        r = T.run_tlc("MC_C03", cfg, ctx.spec_dir, workers=4, allow_violation=True, scratch=ctx.scratch, timeout=600)
+                    require_actions=MODEL_ACTIONS, timeout=2400, workers=6 if quick else 14)
+    for (cfg, what, expect), job in zip(SELFTESTS, jobs):
+        r = job.result()
         if r.violated not in expect:
             raise MachineryError("model self-test %s (%s): expected one of %s to be violated, got %s" % (cfg, what, expect, r.violated))
         ctx.extra.setdefault("model_selftests", []).append("%s: %s -> TLC finds a %s counterexample (%d states)" % (cfg, what, r.violated, r.distinct))
 
     # 2. S->C: histories of the model replayed on real objects
-    nsim = 25 if quick else 120
-    res = T.run_tlc("MC_C03", "MC_sim.cfg", ctx.spec_dir, workers=1, coverage=False, simulate="num=%d" % nsim,
-                    depth=8, seed=11 + ctx.seed, scratch=ctx.scratch, timeout=900)
+    res = simjob.result()
+    pool.shutdown()
     behs = T.parse_printed_json(res.output)
     want = 150 if quick else 1500
     if len(behs) < min(want, 50):
@@ -582,6 +623,14 @@ def run(ctx):
     # 3. C->S: every discovered pair / operator with its recipes
     recs, table, tid = run_pairs(ctx, quick, 100000)
     orecs, otable, tid = run_binops(ctx, quick, tid)
+    for rep in range(1, 1 if quick else 6):     # thorough: other numbers, other random re-storages
+        r2, t2, tid = run_pairs(ctx, quick, tid, rep)
+        o2, ot2, tid = run_binops(ctx, quick, tid, rep)
+        recs += r2
+        orecs += o2
+        for e, e2 in zip(table + otable, t2 + ot2):
+            e["cases"] += e2["cases"]
+            e["returned"] += e2["returned"]
     prs = []
     for e in table + otable:
         prs.append({"ev": "pair", "tid": tid, "cls": e["cls"], "name": e["name"], "status": e["status"], "reason": e["reason"] or "-",
